@@ -666,12 +666,24 @@ def o_from_cp(case):
 # ---- SVD compression --------------------------------------------------------
 @st.composite
 def _compress_case(draw):
-    K = draw(st.integers(1, 4))
-    I = draw(st.integers(1, 3))
+    # forced share (seed-independence pass, seeded change C04-r3m2): uneven slices whose FIRST slice is short (rows < columns)
+    # while a later slice is taller and has a larger rank than the first slice has rows
+    short_first = draw(st.integers(0, 2)) == 0
+    K = draw(st.integers(2 if short_first else 1, 4))
+    I = draw(st.integers(2 if short_first else 1, 3))
+    J0 = draw(st.integers(1, K - 1)) if short_first else None
+    tall = draw(st.integers(1, I - 1)) if short_first else None
     slices = []
-    for _ in range(I):
-        J = draw(st.integers(1, 6))
-        r = draw(st.integers(0, min(J, K)))       # exact rank bound of the slice (0 = zero slice)
+    for i in range(I):
+        if short_first and i == 0:
+            J = J0
+            r = draw(st.integers(0, J0))
+        elif short_first and i == tall:
+            J = draw(st.integers(J0 + 1, 6))
+            r = draw(st.integers(J0 + 1, min(J, K)))
+        else:
+            J = draw(st.integers(1, 6))
+            r = draw(st.integers(0, min(J, K)))       # exact rank bound of the slice (0 = zero slice)
         if r == 0:
             slices.append({"J": J, "r": 0})
         else:
@@ -746,7 +758,9 @@ def _o_compress(part):
                 close(g, want, "svd_decompress/slices", rel=REL, scale=max(float(np.max(np.abs(comp_slices[i]))) if comp_slices[i].size else 0, 1.0) * R)
                 check(op[i].shape[0] == X[i].shape[0], "svd_decompress/structure", lambda: f"projection rows {op[i].shape[0]} vs slice rows {X[i].shape[0]}")
                 _check_orthonormal(op[i], "svd_decompress/projections-orthonormal")
-        return {"nontrivial": ncomp > 0, "labels": [f"ncompressed={ncomp}", f"max_rank={'none' if case['max_rank'] is None else 'given'}",
+        sl = case["slices"]
+        short_first = sl[0]["J"] < K and any(t["J"] > sl[0]["J"] and t["r"] > sl[0]["J"] for t in sl[1:])
+        return {"nontrivial": ncomp > 0, "labels": [f"ncompressed={ncomp}", f"short_first_taller_later={short_first}", f"max_rank={'none' if case['max_rank'] is None else 'given'}",
                                                    f"thr={case['thr']}", f"zero_slice={any(s['r'] == 0 for s in case['slices'])}",
                                                    f"rank_deficient={any(s['r'] < min(s['J'], K) for s in case['slices'])}"]}
     return oracle
